@@ -75,6 +75,7 @@ var prevDayEndC1 = math.NaN()
 var prevDayEndCnt [3]float64
 var unstableDays, unstableEarlyDays, laterSubstepNitroCalls int
 var bookPre [5]float64
+var minPre [4][2]float64
 var prevStage, prevNaos0, prevCropN float64
 var prevAkf, resprouts, perCropFixChecked int
 var preHarvestNfix, perCropFixWant float64
@@ -295,6 +296,11 @@ func traceLine(work, line string, lineNo int, r *rng, waterEvery int) {
 				nday.nPesum, nday.nAufna1 = g.PESUM, g.AUFNASUM
 			}
 			bookPre = bookSums(g)
+			if subd == 1 {
+				for z := 0; z < 4; z++ {
+					minPre[z] = [2]float64{g.MINAOS[z], g.MINFOS[z]}
+				}
+			}
 			if nitroEvery > 0 && (r.intn(nitroEvery) == 0 || (subd > 1 && r.intn(3) == 0)) {
 				gg, ll := *g, *n
 				if subd == 1 {
@@ -320,6 +326,16 @@ func traceLine(work, line string, lineNo int, r *rng, waterEvery int) {
 			// fertiliser (manual, automatic, organic after harvest / sowing), residues and tillage are booked on sub-step 1;
 			// over the Nitro call of a LATER sub-step the pool + counter sums, applied fertiliser, applied ammonium and the
 			// simulated-fertiliser total do not move
+			// C07 "what mineralisation removes from the organic pools is exactly what the counters gain": a layer whose mineralised-amount
+			// counters did not move today and that dissolved / nitrified nothing has NO source term for the transport step (a source
+			// term left over from an earlier day would feed mineral N that no pool lost)
+			if subd == 1 {
+				for z := 0; z < g.IZM/g.DZ.Index && z < 4; z++ {
+					if g.MINAOS[z] == minPre[z][0] && g.MINFOS[z] == minPre[z][1] && n.DUMS[z] == 0 && n.DNH4UMS[z] == 0 && math.Abs(g.DN[z]) > 1e-12 {
+						oracleFail("source-term-without-pool-loss line=%d zeit=%d layer=%d dn=%v wg=%v porges=%v", lineNo, zeit, z+1, g.DN[z], g.WG[0][z], g.PORGES[z])
+					}
+				}
+			}
 			if subd > 1 {
 				bp := bookSums(g)
 				for bi := range bp {
